@@ -1503,7 +1503,7 @@ def run(ctx):
         j = P.judge(real, res)
         if j:
             fail(j[0], f"instantiation road: {P.describe(book)}: {j[1][:600]}",
-                 dict(fn="book", files=real["files"], expect=real["expect"], api=real["api"], what=P.describe(book)))
+                 dict(fn="book", files=real["files"], expect=real["expect"], api=real["api"], guard=real["guard"], what=P.describe(book)))
         nontrivial.add(("book", real["files"].get(pl["sheet"] or "data", ""), book["road"], book["main_mode"]))
     stats["instantiation_roads"] = pdist
 
@@ -1734,7 +1734,7 @@ def replay(rep):
     if r["fn"] == "book":
         import c16_paths as P
         res = P.run_book(r["files"], r.get("api"))
-        j = P.judge(dict(expect=r["expect"]), res)
+        j = P.judge(dict(expect=r["expect"], guard=r.get("guard")), res)
         if j:
             print("  ", j[0], ":", j[1][:600])
         return j is None
